@@ -59,7 +59,9 @@ WPaths == [nodes |-> <<
   PNode(15, 1, "symlink", <<"d","a","n","g">>, 0) @@ [target |-> -1, tstyle |-> "abs"],
   \* entries that are neither files nor directories (their content size is what lstat says: 0), and a link to an empty file
   PNode(16, 0, "fifo", <<"p","i","p","e">>, 0), PNode(17, 1, "socket", <<"s","o","c","k">>, 0),
-  PNode(18, 0, "symlink", <<"l","z">>, 0) @@ [target |-> 6, tstyle |-> "rel"] >>]
+  PNode(18, 0, "symlink", <<"l","z">>, 0) @@ [target |-> 6, tstyle |-> "rel"],
+  \* names that begin with several dots (the extension is what follows the last dot unless that dot is the first character), a name that ends with one
+  PNode(19, 0, "file", <<".",".","d","a","t","a">>, 0), PNode(20, 1, "file", <<".",".",".","r","c">>, 1), PNode(21, 0, "file", <<"t","r","a","i","l",".">>, 0) >>]
 
 (* ---- extension classes ---- *)
 AllExts == LET RECURSIVE Cat(_) Cat(i) == IF i > Len(Classes) THEN <<>> ELSE DefaultLists[Classes[i]] \o Cat(i + 1) IN Cat(1)
